@@ -998,7 +998,7 @@ func startWatchdog() {
 				fr, stack := blockedInLibrary()
 				// (the blocked task may be the very one that leaked the lock, later in
 				// the same operation: then its own bracket is still open)
-				if fr != "" && (verifsim.LockLeaks() > 0 || verifsim.OpenBrackets() > 0) && onHang != nil {
+				if fr != "" && (verifsim.LockLeaks() > 0 || verifsim.OpenBrackets() > 0) && onHang != nil && os.Getenv("VERIF_NO_LIVENESS") == "" {
 					onHang(C11Violation{Class: "hang:lock-not-released@" + fr, Oracle: "liveness",
 						Detail: fmt.Sprintf("a call has been blocked for %d s acquiring a sync primitive from library code; %d operation(s) of this process returned without releasing a lock they had taken, and the blocked task itself has %d Lock()/Unlock() bracket(s) open; the harness runs one goroutine of library code at a time and never parks a task inside such a bracket, so nobody else can hold the lock\n%s", 2*stuck, verifsim.LockLeaks(), verifsim.OpenBrackets(), stack)})
 				}
